@@ -14,7 +14,7 @@ pub const DEF: PropDef = PropDef {
     run,
     replay,
     level: "exploration",
-    rule: "(1) the complete product of valid components: 38 patterns x every ordered duplicate-free modifier sequence of length <= 2 (thorough: <= 3) over {psk0..psk9, fallback} x {25519, 448, P256} x 3 ciphers x 4 hashes, enumerated exhaustively; (2) EVERY single-edit mutation (delete, duplicate, case flip, replace by / insert each character of an alphabet of name characters plus '_' '+' space NUL and non-ASCII) at every position of a sample of valid names; (3) random strings from a grammar-aware strategy and arbitrary Unicode; the hfs build (thorough) adds the dh+kem field and the hfs<=>kem rule. Oracle: an independent recogniser written from the statement (exactly 5 '_'-separated fields, 'Noise', longest-prefix pattern, '+'-separated non-empty duplicate-free modifiers fallback | psk<decimal u8> (| hfs), documented primitive names): parse is Ok iff the recogniser accepts; on Ok pattern, modifier list in order, dh, cipher, hash, base equal the recogniser's components and `name` is the input verbatim; on rejection the error is Error::Pattern(_). Decimal forms the statement does not settle (leading zeros, e.g. psk01) are counted and not judged. Non-trivial = a valid name with at least one modifier, or an invalid string within one edit of a valid name; distinct by string",
+    rule: "(1) the complete product of valid components: 38 patterns x every ordered duplicate-free modifier sequence of length <= 2 (thorough: <= 3) over {psk0..psk9, fallback} x {25519, 448, P256} x 3 ciphers x 4 hashes, enumerated exhaustively; (2) EVERY single-edit mutation (delete, duplicate, case flip, replace by / insert each character of an alphabet of name characters plus '_' '+' space NUL and non-ASCII) at every position of a sample of valid names; (2b) duplicate-free modifier lists of EVERY length 1..=257 (valid names from ~30 to ~1700 bytes, crossing 255/256/512/1024) and the same lists with one duplicate / out-of-range index / empty element, every ordered pair over psk0..psk257+fallback, two random edits; (3) random strings from a grammar-aware strategy and arbitrary Unicode; the hfs build (thorough) adds the dh+kem field and the hfs<=>kem rule. Oracle: an independent recogniser written from the statement (exactly 5 '_'-separated fields, 'Noise', longest-prefix pattern, '+'-separated non-empty duplicate-free modifiers fallback | psk<decimal u8> (| hfs), documented primitive names): parse is Ok iff the recogniser accepts; on Ok pattern, modifier list in order, dh, cipher, hash, base equal the recogniser's components and `name` is the input verbatim; on rejection the error is Error::Pattern(_). Decimal forms the statement does not settle (leading zeros, e.g. psk01) are counted and not judged. Non-trivial = a valid name with at least one modifier, or an invalid string within one edit of a valid name; distinct by string",
     technique: "differential testing of the parser against a reference recogniser: exhaustive product enumeration + exhaustive single-edit mutation + proptest strings (+ libFuzzer target name_parse in the thorough tier)",
     assumptions: &["psk indices with leading zeros (psk01) and a leading '+' sign are outside what the statement settles; they are skipped"],
     panic_is_violation: false,
@@ -327,6 +327,56 @@ pub fn run(ctx: &Ctx) {
                     format!("{}+{}+{}", bset[t / (b * b)], bset[(t / b) % b], bset[t % b])
                 };
                 Case { s: format!("Noise_{p}{mods}_25519_AESGCM_SHA512"), origin: 0 }
+            },
+            oracle,
+        );
+    }
+    // long names: duplicate-free modifier lists of every length 1..=257 (psk indices in
+    // ascending, descending and strided order, with and without `fallback`), so that valid names
+    // of every total length from ~30 to ~1700 bytes occur (255/256, 512, 1024 are crossed), plus
+    // the same lists with one duplicate / one out-of-range index / one empty element
+    {
+        let pats4 = ["N", "XX", "IK1", "K1K1"];
+        let per = 257 * 3 * 2 * 4;
+        let total = per * pats4.len();
+        ctx.run_indexed(
+            "long_modifier_lists",
+            total,
+            true,
+            move |i| {
+                let p = pats4[i % 4];
+                let j = i / 4;
+                let k = 1 + j % 257; // list length
+                let order = (j / 257) % 3;
+                let with_fb = (j / (257 * 3)) % 2 == 1;
+                let defect = j / (257 * 3 * 2); // 0 none, 1 duplicate, 2 out of range, 3 empty element
+                let mut idx: Vec<u32> = (0..k.min(256) as u32).collect();
+                match order {
+                    1 => idx.reverse(),
+                    2 => idx = idx.iter().map(|x| (x * 37 + 11) % 256).collect::<std::collections::BTreeSet<_>>().into_iter().rev().collect(),
+                    _ => {},
+                }
+                let mut mods: Vec<String> = idx.iter().map(|n| format!("psk{n}")).collect();
+                if with_fb || k == 257 {
+                    let at = (j * 7) % (mods.len() + 1);
+                    mods.insert(at, "fallback".to_string());
+                }
+                match defect {
+                    1 => {
+                        let d = mods[(j * 5) % mods.len()].clone();
+                        mods.push(d);
+                    },
+                    2 => {
+                        let at = (j * 3) % (mods.len() + 1);
+                        mods.insert(at, format!("psk{}", 256 + j % 1000));
+                    },
+                    3 => {
+                        let at = (j * 3) % (mods.len() + 1);
+                        mods.insert(at, String::new());
+                    },
+                    _ => {},
+                }
+                Case { s: format!("Noise_{p}{}_25519_ChaChaPoly_BLAKE2s", mods.join("+")), origin: 0 }
             },
             oracle,
         );
